@@ -378,6 +378,15 @@ fn nontrivial_rule(prop: &str) -> &'static str {
         "C07" => "a run is non-trivial when a backtest was ticked to exactly its last date and has_next turned false",
         "C08" => "a run is non-trivial when at least two backtests existed and a solo re-run of one was compared",
         "C17" => "a run is non-trivial when a batch containing both buy-side and sell-side orders was admitted",
+        "C04" | "C05" => "a run is non-trivial when at least one check() reconciled fills returned by the exchange (the ledger was exercised on real executions)",
+        "C06" => "a run is non-trivial when at least one order was forwarded in a run that used a non-eager delivery mode (lazy or Pending-delayed client future)",
+        "C09" => "a run is non-trivial when a check() ended with negative cash (the Failed-entry condition was evaluated on a real shortfall) or an operation was attempted in Failed state",
+        "C10" => "a run is non-trivial when a liquidation (explicit or automatic) inside the property's domain reported success and its queued sells were valued",
+        "C11" => "a run is non-trivial when the identities were evaluated on a portfolio holding at least one quoted position",
+        "C12" => "a run is non-trivial when a diff call had at least one order prescribed by the property to compare with",
+        "C16" => "a run is non-trivial when the strategy performed all N updates of its dataset",
+        "C18" => "a run is non-trivial when a trigger fired or an IOC order was rejected by the slippage bound",
+        "C20" => "a run is non-trivial when at least one tick with fills was compared between the in-process twin and the JSON service",
         _ => "a run is non-trivial when the property's own probe fired",
     }
 }
@@ -418,6 +427,7 @@ fn write_evidence(prop: &str, tier: Tier, seed: u64, reports: &[EngineReport], w
             "runs_per_hour": if wall > 0.0 { (total_runs as f64 / wall * 3600.0) as u64 } else { 0 },
             "seeds": format!("batch seed {seed}; run i of engine e uses mix(seed, e, i), i in 0..runs"),
             "sim_ticks": reports.iter().map(|r| r.sim_ticks).sum::<u64>(),
+            "simulated_time_covered": format!("{} exchange ticks; sum over runs of (last date reached - first date) = {} date units (dataset dates are abstract integers; most datasets step by 1, some by 7, 86400 or 1e9)", reports.iter().map(|r| r.sim_ticks).sum::<u64>(), reports.iter().map(|r| r.sim_span).sum::<i128>()),
             "faults_fired": faults,
             "probes": probes,
             "distinct_interleavings": reports.iter().map(|r| r.interleavings).sum::<u64>(),
